@@ -4,13 +4,18 @@
   The model (CedarGo/Model/Schema/Resolve.lean) transcribes `resolved.Resolve` and the validator's three
   hierarchy walks; Go recursion that is not structural carries fuel, `none` = "still running".  The theorems say
   which recursions never run out of the fuel the model gives them — and which one does for EVERY fuel.
-  The proofs that cannot be written are the findings:
-    * `isEntityDescendant` has no visited set: `C16_isEntityDescendant_diverges`;
-    * the Kahn pass and `resolveType` disagree about the namespace of a common type whose name starts with ':':
-      `C16_resolveType_total_counterexample`;
-    * `typeOfValue` type-asserts `EntityUID` on set/record/extension literals: `C16_typeOfValue_total_counterexample`.
+  Three former findings are repaired in cedar-go (`fix:` commits); the termination proofs that could not be written
+  now exist, and the old witnesses are regression `example`s:
+    * `isEntityDescendant` threads a visited set: `C16_isEntityDescendant_total` (every schema, fuel `|entity types| + 1`)
+      and `C16_isEntityDescendant_correct` (the answer is reachability) replace `C16_isEntityDescendant_diverges`;
+    * the Kahn pass and `resolveType` read the declaring namespace of a common type from the table recorded at
+      registration: `C16_resolveType_total` and `C16_resolve_total` hold without the hypothesis "no reference starts
+      with ':'" and replace `C16_resolveType_total_counterexample`;
+    * `typeOfValue` has a case for every literal kind: `C16_typeOfValue_total`.
+  Still a finding (running time, not termination): exponential inlining of common types.
 -/
 import CedarGoProofs.Lemmas.C16Total
+import CedarGoProofs.Lemmas.C16Desc
 namespace CedarGo
 open CedarGo.Schema
 
@@ -34,66 +39,62 @@ theorem C16_kahn_complete (r : RState) (h : detectCycles r = .ok ()) : ∀ c ∈
 example : detectCycles { commonTypes := [("T0", .set (.typeRef "T1")), ("T1", .long)] } = .ok () := by decide +kernel
 example : detectCycles { commonTypes := [("T0", .set (.typeRef "T1")), ("T1", .typeRef "T0")] } = .error .cycle := by decide +kernel
 
-/-- and that relation contains every jump `resolveType` makes into the body of a common type, as long as the
-    reference does not start with a colon: the jump's target is the key `resolveTypeRefPath` computes, the namespace
-    passed on is the one the Kahn pass derives from that key, and the references of the body are `deps` edges. -/
-theorem C16_deps_cover_jumps (r : RState) (ns ref ns' : String) (b : Ty) (hc : refNoColon ref)
+/-- and that relation contains every jump `resolveType` makes into the body of a common type: the jump's target is the
+    key `resolveTypeRefPath` computes, the namespace passed on is the declaring namespace recorded for that key — the one
+    the Kahn pass uses as well — and the references of the body are `deps` edges. -/
+theorem C16_deps_cover_jumps (r : RState) (ns ref ns' : String) (b : Ty)
     (h : lookupTypeRef r ns ref = .common ns' b) :
-    r.common? (resolveTypeRefPath r ns ref) = some b ∧ ns' = extractNamespace (resolveTypeRefPath r ns ref) ∧
+    r.common? (resolveTypeRefPath r ns ref) = some b ∧ ns' = r.nsOf (resolveTypeRefPath r ns ref) ∧
     ∀ ref' ∈ collectTypeRefs b, ∀ b', r.common? (resolveTypeRefPath r ns' ref') = some b' →
       resolveTypeRefPath r ns' ref' ∈ r.deps (resolveTypeRefPath r ns ref) := by
-  obtain ⟨h1, h2⟩ := lookupTypeRef_common r ns ref ns' b hc h
+  obtain ⟨h1, h2⟩ := lookupTypeRef_common r ns ref ns' b h
   refine ⟨h1, h2, fun ref' href' b' hb' => ?_⟩
   rw [h2] at hb' ⊢
   exact body_ref_mem_deps r _ b h1 ref' href' b' hb'
 
-/-- FULL STATEMENT (false, see the counterexample below): for every resolver state accepted by `detectCycles`, every
-    namespace and type, `resolveType` terminates within the fuel `|commonTypes| + 1`.
+/-- **`resolveType` terminates**: for every resolver state accepted by `detectCycles`, every namespace and every type,
+    `resolveType` returns within the fuel `|commonTypes| + 1` (nested jumps into common-type bodies).  No hypothesis on
+    names: the former restriction `RefsOk` (no type reference starts with ':') was only needed while the Kahn pass
+    re-derived the namespace of a common type from its qualified name (finding `resolve-common-type-cycle-undetected`,
+    repaired: the namespace is recorded at registration). -/
+theorem C16_resolveType_total (r : RState) (h : detectCycles r = .ok ()) (ns : String) (t : Ty) :
+    ∃ res, resolveTypeFuel r r.fuel ns t = some res :=
+  Option.ne_none_iff_exists'.mp (resolveTypeFuel_total r h ns t)
 
-    PROVED PART: the same under `RefsOk` — no type reference (in a common-type body or in the type being resolved)
-    starts with ':'.  What is missing is exactly the unvalidated-name case the counterexample exhibits. -/
-theorem C16_resolveType_total_partial (r : RState) (hok : RefsOk r) (h : detectCycles r = .ok ()) (ns : String) (t : Ty)
-    (ht : ∀ ref ∈ collectTypeRefs t, refNoColon ref) : ∃ res, resolveTypeFuel r r.fuel ns t = some res := by
-  obtain ⟨rank, hle, hpos, hdec⟩ := kahn_rank r h
-  have := resolveTypeFuel_ne_none_of_rank r hok rank hpos hdec r.commonTypes.length ns t ht (fun _ _ _ _ _ => hle _)
-  exact Option.ne_none_iff_exists'.mp this
+example : detectCycles { commonTypes := [("T0", .set (.typeRef "T1")), ("T1", .long)] } = .ok () := by decide +kernel
 
-example : RefsOk { commonTypes := [("T0", .set (.typeRef "T1")), ("T1", .long)] } :=
-  ⟨by
-    intro c b hcb ref href
-    simp only [RState.common?, List.lookup] at hcb
-    split at hcb
-    · cases hcb; simp [collectTypeRefs] at href; subst href; decide
-    · split at hcb
-      · cases hcb; simp [collectTypeRefs] at href
-      · cases hcb⟩
+/-- the resolver state of `namespace A { type :b = c; type c = :b; }` (JSON accepts such names) as the REPAIRED
+    registration builds it: both types are recorded as declared in namespace `A` -/
+def colonCycleState : RState :=
+  { commonTypes := [("A:::b", .typeRef "c"), ("A::c", .typeRef ":b")], commonNS := [("A:::b", "A"), ("A::c", "A")] }
 
-/-- the resolver state of `namespace A { type :b = c; type c = :b; }` (JSON accepts such names) -/
-def colonCycleState : RState := { commonTypes := [("A:::b", .typeRef "c"), ("A::c", .typeRef ":b")] }
+/-- REGRESSION (was `C16_resolveType_total_counterexample`: the Kahn pass filed `A:::b` under the namespace `A:` =
+    `extractNamespace "A:::b"`, accepted the state, and `resolveType` then jumped `c → :b → c → …` for ever — in Go a fatal
+    stack overflow in `Resolve`): the cycle `A::c → A:::b → A::c` is now an edge cycle of `deps` and is reported. -/
+example : extractNamespace "A:::b" = "A:" ∧ colonCycleState.nsOf "A:::b" = "A" ∧
+    colonCycleState.deps "A:::b" = ["A::c"] ∧ colonCycleState.deps "A::c" = ["A:::b"] ∧
+    detectCycles colonCycleState = .error .cycle := by
+  refine ⟨?_, ?_, ?_, ?_, ?_⟩ <;> decide +kernel
 
-/-- The Kahn pass accepts `colonCycleState` (it files `A:::b` under the namespace `A:`), yet resolving `c` in
-    namespace `A` jumps `c → :b → c → …` for ever: `Resolve` overflows the stack. -/
-theorem C16_resolveType_total_counterexample :
-    ∃ (r : RState) (ns : String) (t : Ty), detectCycles r = .ok () ∧ ∀ fuel, resolveTypeFuel r fuel ns t = none := by
-  refine ⟨colonCycleState, "A", .typeRef "c", by decide +kernel, ?_⟩
-  have h1 : lookupTypeRef colonCycleState "A" "c" = .common "A" (.typeRef ":b") := by decide +kernel
-  have h2 : lookupTypeRef colonCycleState "A" ":b" = .common "A" (.typeRef "c") := by decide +kernel
-  have key : ∀ fuel, resolveTypeFuel colonCycleState fuel "A" (.typeRef "c") = none ∧
-      resolveTypeFuel colonCycleState fuel "A" (.typeRef ":b") = none := by
-    intro fuel
-    induction fuel with
-    | zero => exact ⟨rfl, rfl⟩
-    | succ f ih =>
-      constructor
-      · show resolveTyWith colonCycleState (resolveTypeFuel colonCycleState f) "A" (.typeRef "c") = none
-        unfold resolveTyWith
-        rw [h1]
-        exact ih.2
-      · show resolveTyWith colonCycleState (resolveTypeFuel colonCycleState f) "A" (.typeRef ":b") = none
-        unfold resolveTyWith
-        rw [h2]
-        exact ih.1
-  exact fun fuel => (key fuel).1
+/-- the schema of the finding itself: `namespace A { type :b = c; type c = :b; entity E { x: c }; }` -/
+def colonCycleSchema : Schema :=
+  { namespaces := [("A", {
+      commonTypes := [(":b", { ty := .typeRef "c" }), ("c", { ty := .typeRef ":b" })],
+      entities := [("E", { shape := some (.cons "x" false [] (.typeRef "c") .nil) })] })] }
+
+/-- … it is rejected with a cycle error -/
+example : (match resolve colonCycleSchema with | some (.error .cycle) => true | _ => false) = true := by decide +kernel
+
+/-- `namespace A { type :b = c; type c = Long; entity E { x: :b, y: A:::b }; }`: such names, no cycle -/
+def colonNameSchema : Schema :=
+  { namespaces := [("A", {
+      commonTypes := [(":b", { ty := .typeRef "c" }), ("c", { ty := .long })],
+      entities := [("E", { shape := some (.cons "x" false [] (.typeRef ":b") (.cons "y" false [] (.typeRef "A:::b") .nil)) })] })] }
+
+/-- … it resolves, and the body of `:b` is resolved in its declaring namespace `A` on both paths -/
+example : (match resolve colonNameSchema with
+    | some (.ok rs) => rs.entities.map (fun e => e.2.shape.toList.map (fun a => (a.1, a.2.2.2)))
+    | _ => []) = [[("x", RTy.long), ("y", RTy.long)]] := by decide +kernel
 
 /-- The DFS of `validateActionMembership` is sound: when it accepts, no action is its own (transitive) parent. -/
 theorem C16_action_cycle_detected (rs : RSchema) (D : List UID) (h : checkActionCycles rs = some (.ok D)) :
@@ -124,38 +125,33 @@ theorem C16_action_dfs_total (rs : RSchema) : ∃ res, validateActionMembership 
       exact visitFuel_ne_none rs _ (actionParents_closed rs hpar) _ [] u d (by simp) (by simp) hu (by simp)
     · intro _; simp
 
-/-- FULL STATEMENT (false by `C16_resolveType_total_counterexample`): for EVERY schema, `Resolve` returns a resolved
-    schema or an error (`resolve s ≠ none`: no recursion of the transcription is still running when its fuel —
-    `|commonTypes| + 1` nested type jumps, `|actions| + 1` nested DFS calls, `|commonTypes| + 1` Kahn rounds — is used up).
-    PROVED PART: for every schema none of whose type references starts with ':' (cyclic or self-referential common
-    types, cyclic action groups, undefined references, shadowing, any namespaces included). -/
-theorem C16_resolve_total_partial (s : Schema) (hs : SchemaRefsOk s) : ∃ res, resolve s = some res := by
+/-- **`Resolve` terminates on EVERY schema**: it returns a resolved schema or an error (`resolve s ≠ none`: no recursion
+    of the transcription is still running when its fuel — `|commonTypes| + 1` nested type jumps, `|actions| + 1` nested DFS
+    calls, `|commonTypes| + 1` Kahn rounds — is used up).  Cyclic or self-referential common types, cyclic action groups,
+    undefined references, shadowing, any namespaces and ANY names (the JSON format validates none) included.
+    (Was `C16_resolve_total_partial` under `SchemaRefsOk`; the missing case was the finding
+    `resolve-common-type-cycle-undetected`.)  What this does NOT bound is the running TIME: common types are inlined by
+    value (finding `common-type-exponential-inlining`). -/
+theorem C16_resolve_total (s : Schema) : ∃ res, resolve s = some res := by
   apply Option.ne_none_iff_exists'.mp
   unfold resolve
-  apply fbind_ne_none' _ _ (by simp [flift])
-  intro r hr
-  have hr' : registerAll s = .ok r := by simpa [flift] using hr
-  have hok := registerAll_refsOk s hs r hr'
+  apply fbind_ne_none _ _ (by simp [flift])
+  intro r
   apply fbind_ne_none _ _ (by simp [flift])
   intro _
   apply fbind_ne_none' _ _ (by simp [flift])
   intro u hu
   have hcyc : detectCycles r = .ok () := by cases u; simpa [flift] using hu
-  apply fbind_ne_none _ _ (resolveNamespace_ne_none r hok hcyc "" s.bare {} (fun t ht => hs s.bare (by simp) t ht))
+  apply fbind_ne_none _ _ (resolveNamespace_ne_none r hcyc "" s.bare {})
   intro acc
-  apply fbind_ne_none _ _ (resolveNamespaces_ne_none r hok hcyc s.namespaces acc
-    (fun nd hnd t ht => hs nd.2 (by simp; exact Or.inr ⟨nd.1, by simpa using hnd⟩) t ht))
+  apply fbind_ne_none _ _ (resolveNamespaces_ne_none r hcyc s.namespaces acc)
   intro rs
   apply fbind_ne_none _ _ ?_ (fun _ => by simp)
   obtain ⟨res, hres⟩ := C16_action_dfs_total rs
   simp [hres]
 
-example : SchemaRefsOk { bare := { commonTypes := [("T", { ty := .set (.typeRef "T") })], entities := [("E", { tags := some (.typeRef "T") })] } } := by
-  intro d hd t ht ref href
-  simp only [List.map_nil, List.mem_cons, List.not_mem_nil, or_false] at hd
-  subst hd
-  simp [nsTypes] at ht
-  rcases ht with rfl | rfl <;> simp [collectTypeRefs] at href <;> subst href <;> decide
+example : ∃ res, resolve { bare := { commonTypes := [("T", { ty := .set (.typeRef "T") })], entities := [("E", { tags := some (.typeRef "T") })] } } = some res :=
+  C16_resolve_total _
 
 /-- On every schema `Resolve` lets through (its action-membership check succeeded), `isActionDescendant` — which has
     no visited set either — terminates on every pair, within the fuel `|actions| + 1`. -/
@@ -205,61 +201,76 @@ def selfParentSchema : RSchema :=
   { entities := [("Group", { name := "Group", anns := [], parents := ["Group"], shape := .nil, tags := none }),
                  ("Other", { name := "Other", anns := [], parents := [], shape := .nil, tags := none })] }
 
-/-- `isEntityDescendant` does NOT terminate on a cyclic entity hierarchy: on `entity Group in [Group]; entity Other;`
-    the call `isEntityDescendant(Group, Other)` — made by the type checker for `principal in Other::"g"` with a
-    `Group` principal — is still running for every amount of fuel (in Go: a fatal stack overflow). -/
-theorem C16_isEntityDescendant_diverges :
-    ∃ (rs : RSchema) (a b : String), ∀ fuel, isEntityDescendantFuel rs fuel a b = none := by
-  refine ⟨selfParentSchema, "Group", "Other", fun fuel => ?_⟩
-  induction fuel with
-  | zero => rfl
-  | succ f ih =>
-    have hp : selfParentSchema.entityParents "Group" = ["Group"] := by decide +kernel
-    show descListWith (fun p => descFuel selfParentSchema.entityParents f p "Other") "Other" (selfParentSchema.entityParents "Group") = none
-    rw [hp]
-    have hne : ("Group" : String) ≠ "Other" := by decide
-    simp only [descListWith, hne, if_false]
-    have : descFuel selfParentSchema.entityParents f "Group" "Other" = none := ih
-    rw [this]
+/-- `entity A in [B]; entity B in [A, G]; entity C in [A]; entity G in [G];`: two cycles -/
+def cyclicSchema : RSchema :=
+  { entities := [("A", { name := "A", anns := [], parents := ["B"], shape := .nil, tags := none }),
+                 ("B", { name := "B", anns := [], parents := ["A", "G"], shape := .nil, tags := none }),
+                 ("C", { name := "C", anns := [], parents := ["A"], shape := .nil, tags := none }),
+                 ("G", { name := "G", anns := [], parents := ["G"], shape := .nil, tags := none })] }
 
-/-- More generally: whenever an entity type lists ITSELF as its first parent type (`entity G in [G, …]`, routine in
-    Cedar schemas), `isEntityDescendant(G, B)` never returns for any other type `B`. -/
-theorem C16_isEntityDescendant_self_parent_diverges (rs : RSchema) (a b : String) (rest : List String)
-    (hp : rs.entityParents a = a :: rest) (hab : a ≠ b) : ∀ fuel, isEntityDescendantFuel rs fuel a b = none := by
-  intro fuel
-  induction fuel with
-  | zero => rfl
-  | succ f ih =>
-    show descListWith (fun p => descFuel rs.entityParents f p b) b (rs.entityParents a) = none
-    rw [hp]
-    have : descFuel rs.entityParents f a b = none := ih
-    simp only [descListWith, hab, if_false, this]
+theorem entityParents_of_not_mem (rs : RSchema) (x : String) (h : x ∉ rs.entities.map (·.1)) : rs.entityParents x = [] := by
+  unfold RSchema.entityParents
+  split
+  · rename_i e he
+    exact absurd (List.mem_map.mpr ⟨(x, e), lookup_some_mem_pair x e _ he, rfl⟩) h
+  · rfl
 
-example : selfParentSchema.entityParents "Group" = "Group" :: [] := by decide +kernel
+/-- **`isEntityDescendant` terminates on EVERY resolved schema** — cyclic entity hierarchies (`entity Group in [Group]`,
+    routine in Cedar schemas) included — within the fuel `|entity types| + 1`: the search threads a visited set, every
+    entity type is expanded at most once, so the recursion is never nested deeper than the number of entity types.
+    (Before the repair of `entity-descendant-unbounded-recursion` the recursion had no visited set and
+    `C16_isEntityDescendant_diverges` exhibited a schema on which it never returned.) -/
+theorem C16_isEntityDescendant_total (rs : RSchema) (a b : String) :
+    ∃ r, isEntityDescendantFuel rs (rs.entities.length + 1) a b = some r := by
+  obtain ⟨r, vis', h, _⟩ := descVisFuel_total rs.entityParents (rs.entities.map (·.1)) (entityParents_of_not_mem rs) b
+    (rs.entities.length + 1) a [] (by
+      have := List.length_filter_le (fun x => !([] : List String).contains x) (rs.entities.map (·.1))
+      unfold visMissing
+      simp only [List.length_map] at this
+      omega)
+  exact ⟨r, by simp [isEntityDescendantFuel, h]⟩
 
-/-- FULL STATEMENT (false by the theorem above): `isEntityDescendant` terminates on every resolved schema.
-    PROVED PART: it does whenever the entity types can be listed with every type's parents strictly later in the
-    list (an acyclic hierarchy), within the fuel `|list| + 1`. -/
-theorem C16_isEntityDescendant_total_partial (rs : RSchema) (D : List String) (hD : Closed rs.entityParents D)
-    (hcov : ∀ e ∈ rs.entities, e.1 ∈ D) (a b : String) : ∃ r, isEntityDescendantFuel rs (D.length + 1) a b = some r := by
-  apply Option.ne_none_iff_exists'.mp
-  unfold isEntityDescendantFuel
-  apply descFuel_total_of_closed rs.entityParents hD a _ _ (by omega)
-  by_cases ha : a ∈ D
-  · exact Or.inl ha
-  · right
-    unfold RSchema.entityParents
-    split
-    · rename_i e he
-      exact absurd (hcov (a, e) (lookup_some_mem_pair a e _ he)) ha
-    · rfl
+/-- … and whatever it returns (with any fuel) is the right answer: `true` iff `b` is reachable from `a` by ONE OR MORE
+    `ParentTypes` steps. -/
+theorem C16_isEntityDescendant_correct (rs : RSchema) (fuel : Nat) (a b : String) (r : Bool)
+    (h : isEntityDescendantFuel rs fuel a b = some r) : r = true ↔ Reaches rs.entityParents a b := by
+  unfold isEntityDescendantFuel at h
+  cases hd : descVisFuel rs.entityParents fuel a b [] with
+  | none => simp [hd] at h
+  | some res =>
+    obtain ⟨r', vis'⟩ := res
+    simp only [hd, Option.map_some, Option.some.injEq] at h
+    subst h
+    cases r' with
+    | true => exact ⟨fun _ => descVisFuel_sound _ _ _ _ _ _ hd, fun _ => rfl⟩
+    | false => exact Iff.intro (fun h => Bool.noConfusion h) (fun hr => absurd hr (descVisFuel_complete _ _ _ _ _ hd))
 
-example : Closed selfParentSchema.entityParents [] := Closed.nil
+/-- REGRESSION (was `C16_isEntityDescendant_diverges`: on `entity Group in [Group]; entity Other;` the call
+    `isEntityDescendant(Group, Other)` — made by the type checker for `principal in Other::"g"` with a `Group` principal —
+    ran out of every fuel, in Go a fatal stack overflow): the old witness now returns `false`, within `|entity types| + 1`. -/
+example : isEntityDescendantFuel selfParentSchema (selfParentSchema.entities.length + 1) "Group" "Other" = some false ∧
+    isEntityDescendantFuel selfParentSchema (selfParentSchema.entities.length + 1) "Group" "Group" = some true ∧
+    isEntityDescendantFuel selfParentSchema (selfParentSchema.entities.length + 1) "Other" "Group" = some false := by
+  refine ⟨?_, ?_, ?_⟩ <;> decide +kernel
 
-/-- FULL STATEMENT (false): `typeOfValue` returns a type or an error for every literal.  A policy decoded from JSON
-    (or built with `ast.IPAddr`, `ast.Value(set)`, …) can hold a set, record or extension VALUE, for which the
-    fall-through `val.(types.EntityUID)` panics. -/
-theorem C16_typeOfValue_total_counterexample : ∃ k : LitKind, typeOfValueOutcome k = .error () :=
-  ⟨.set, rfl⟩
+/-- mutual and self cycles: C → A → B → {A, G}, G → G -/
+example : isEntityDescendantFuel cyclicSchema 5 "C" "G" = some true ∧ isEntityDescendantFuel cyclicSchema 5 "A" "A" = some true ∧
+    isEntityDescendantFuel cyclicSchema 5 "C" "C" = some false ∧ isEntityDescendantFuel cyclicSchema 5 "G" "A" = some false ∧
+    isEntityDescendantFuel cyclicSchema 5 "Zz" "A" = some false := by
+  refine ⟨?_, ?_, ?_, ?_, ?_⟩ <;> decide +kernel
+
+example : Reaches cyclicSchema.entityParents "C" "G" :=
+  (C16_isEntityDescendant_correct cyclicSchema 5 "C" "G" true (by decide +kernel)).mp rfl
+
+/-- **`typeOfValue` returns a type or an error for every kind of literal** a policy `NodeValue` can hold: Boolean, Long,
+    String, EntityUID, set, record and the four extension values all have a case (sets and records recurse into their
+    members, which are finite trees); anything else — only a nil interface remains — gets an error instead of a failed type
+    assertion.  (Before the repair of `typeofvalue-non-entity-literal-panic` set/record/extension literals panicked:
+    `C16_typeOfValue_total_counterexample`.) -/
+theorem C16_typeOfValue_total : ∀ k : LitKind, typeOfValueOutcome k = .ok () := by
+  intro k; cases k <;> rfl
+
+/-- REGRESSION: the old witness (a set literal) -/
+example : typeOfValueOutcome .set = .ok () := rfl
 
 end CedarGo
